@@ -852,17 +852,22 @@ example : indexEntries (run (init {}) (aliasHistory ++
     [.connect 2 { ver := 5, id := [120], clean := false, sei := some 100 }])).topics =
     [([120], [36, 83, 72, 65, 82, 69, 47, 103, 47, 97])] := by decide
 
-/-- UNSUBSCRIBE does not validate its filters: `$share/g` (no topic filter after the group) addresses the entry of
-    `$share/g/g`, removes it and is answered with reason code 0x00; the session keeps `$share/g/g` -/
+/-- UNSUBSCRIBE does not validate its filters: `$share/g` (no topic filter after the group) used to address the
+    entry of `$share/g/g`, remove it and be answered with reason code 0x00 while the session kept `$share/g/g`
+    (defect F06d).  With the fix of `TopicsIndex.Unsubscribe` the index is left alone and the answer is 0x11
+    (no subscription existed): session and index both keep `$share/g/g`. -/
 def shortShareHistory : List Op :=
   [.connect 1 { ver := 5, id := [120], sei := some 100 },
    .recv 1 (.subscribe 1 0 [{ filter := [36, 115, 104, 97, 114, 101, 47, 103, 47, 103] }]),
    .recv 1 (.unsubscribe 3 [[36, 115, 104, 97, 114, 101, 47, 103]])]
 
-example : ¬ IndexSyncConv (run (init {}) shortShareHistory) := by decide
-example : indexEntries (run (init {}) shortShareHistory).topics = [] := by decide
+example : IndexSyncConv (run (init {}) shortShareHistory) := by decide
+example : indexEntries (run (init {}) shortShareHistory).topics =
+    [([120], [36, 115, 104, 97, 114, 101, 47, 103, 47, 103])] := by decide
+example : subKeys (getObj (run (init {}) shortShareHistory) 1) = [[36, 115, 104, 97, 114, 101, 47, 103, 47, 103]] := by
+  decide
 example : (step (run (init {}) (shortShareHistory.take 2)) (.recv 1 (.unsubscribe 3 [[36, 115, 104, 97, 114, 101, 47, 103]]))).2 =
-    [.wrote 1 (.unsuback 5 3 [0])] := by decide
+    [.wrote 1 (.unsuback 5 3 [17])] := by decide
 /-- (a) is not affected -/
 example : IndexSync (run (init {}) aliasHistory) := by decide
 example : IndexSync (run (init {}) shortShareHistory) := by decide
